@@ -249,3 +249,82 @@ Proof.
                (or_intror (conj G5 eq_refl)) B eq_refl eq_refl)
   end.
 Qed.
+
+(* 10. malformed string lists: a missing comma, an empty list, a comma before the closing bracket *)
+Ltac bad_list text items tc :=
+  let toks := eval vm_compute in (fst (lex text)) in
+  let nlist := eval vm_compute in (List.length (open_items items tc)) in
+  match toks with
+  | ?tn :: ?lb :: ?more =>
+      let lt := eval vm_compute in (firstn nlist more) in
+      let r := eval vm_compute in (skipn nlist more) in
+      match r with
+      | ?t :: ?rest =>
+          let H := fresh "H" in
+          assert (H : exists d am em,
+                     get_command_instance gen_tables [] (bs "require") = inl d /\ flat_def d = true /\
+                     wf_def d = true /\ fixed_arity d = true /\ legal d [] [] = LIncomplete am em)
+            by (eexists; eexists; eexists; split; [vm_compute; reflexivity|]; repeat split; vm_compute; reflexivity);
+          destruct H as (d & am & em & G1 & G2 & G3 & G4 & G5);
+          exact (malformed_string_list_rejected gen_tables gen_twf text [] tn [] lb lt t rest [] None 0 d [] am em items tc
+                   (wp_nil gen_tables) ltac:(vm_compute; reflexivity) eq_refl G1 G2 G3 G4 (Forall_nil _) eq_refl G5
+                   eq_refl ltac:(vm_compute; reflexivity) ltac:(repeat constructor) ltac:(intro; try discriminate; reflexivity)
+                   eq_refl eq_refl)
+      end
+  end.
+
+Example ex_missing_comma : parse gen_tables (bs "require [""fileinto"" ""envelope""];") = Reject EExpected 20 10.
+Proof. bad_list (bs "require [""fileinto"" ""envelope""];") [q "fileinto"] false. Qed.
+
+Example ex_empty_list : parse gen_tables (bs "require [];") = Reject EExpected 9 1.
+Proof. bad_list (bs "require [];") (@nil bytes) false. Qed.
+
+Example ex_trailing_comma : parse gen_tables (bs "require [""fileinto"",];") = Reject EExpected 20 1.
+Proof. bad_list (bs "require [""fileinto"",];") [q "fileinto"] true. Qed.
+
+(* 11. the end of the text with a block open; with a command not finished *)
+Example ex_unclosed_block : exists ll, parse gen_tables (bs px_text) = Reject EEndExpected 46 ll.
+Proof.
+  assert (E : map strip_pos (fst (lex (bs px_text))) = px_toks) by (vm_compute; reflexivity).
+  exact (unclosed_block_rejected gen_tables gen_twf (bs px_text) [bs "fileinto"] None 0
+           ltac:(rewrite E; exact px_wf) eq_refl).
+Qed.
+
+Example ex_unfinished_command :
+  exists e ll, (e = EEndExpected \/ e = EEndUnfinished) /\ parse gen_tables (bs (px_text ++ "stop")) = Reject e 50 ll.
+Proof.
+  set (text := bs (px_text ++ "stop")).
+  let toks := eval vm_compute in (fst (lex text)) in
+  let p := eval vm_compute in (firstn 10 toks) in
+  let r := eval vm_compute in (skipn 10 toks) in
+  match r with
+  | [?tn] =>
+      assert (G : exists d, get_command_instance gen_tables [bs "fileinto"] (bs "stop") = inl d /\ flat_def d = true)
+        by (eexists; split; [vm_compute; reflexivity|reflexivity]);
+      destruct G as (d & G1 & G2);
+      exact (unfinished_command_rejected gen_tables gen_twf text p tn [] [bs "fileinto"] None 1 d [] (fun at_ => new_frame d at_)
+               px_wf ltac:(vm_compute; reflexivity) eq_refl eq_refl G1 G2 (Forall_nil _) eq_refl (fun _ => eq_refl))
+  end.
+Qed.
+
+(* 12. an empty test list *)
+Example ex_empty_test_list :
+  parse gen_tables (bs (px_text ++ "if anyof () { stop; } }")) = Reject EExpected 56 1.
+Proof.
+  set (text := bs (px_text ++ "if anyof () { stop; } }")).
+  let toks := eval vm_compute in (fst (lex text)) in
+  let p := eval vm_compute in (firstn 10 toks) in
+  let r := eval vm_compute in (skipn 10 toks) in
+  match r with
+  | ?tn :: ?tl :: ?lp :: ?t :: ?rest =>
+      assert (G : exists d a dl,
+                 get_command_instance gen_tables [bs "fileinto"] (bs "if") = inl d /\ d_type d = CControl /\
+                 d_accept_children d = true /\ d_args d = [a] /\ is_t1 a = true /\
+                 get_command_instance gen_tables [bs "fileinto"] (bs "anyof") = inl dl /\ d_type dl = CTest /\
+                 d_expected_first dl = Some [TLeftParen] /\ iscomplete (new_frame dl (at_of a)) None = false)
+        by (eexists; eexists; eexists; split; [vm_compute; reflexivity|]; repeat split; vm_compute; reflexivity);
+      destruct G as (d & a & dl & G1 & G2 & G3 & G4 & G5 & G6 & G7 & G8 & G9);
+      exact (empty_test_list_rejected gen_tables gen_twf text p tn tl lp t rest [bs "fileinto"] None 1 d a dl
+               px_wf ltac:(vm_compute; reflexivity) eq_refl G1 G2 G3 G4 G5 eq_refl G6 G7 G8 G9 eq_refl eq_refl eq_refl)
+  end.
+Qed.
